@@ -223,4 +223,27 @@ pub fn run(ctx: &mut Ctx) {
         let buf = ctx.rng.bytes(len);
         crypt_case(ctx, key, &buf);
     }
+    // the extended tables' decryption wrapper (tables/common.rs, reached through HetTable::read) inverts the builder's
+    // encryption for every body length, tail bytes included: every slot count x index width
+    {
+        let key = hash_string("(hash table)", wow_mpq::crypto::hash_type::FILE_KEY);
+        for slots in 1..=40usize { for index_bits in 1..=8usize {
+            let index_bytes = (slots * index_bits).div_ceil(8);
+            let hashes: Vec<u8> = (0..slots).map(|i| (i as u8).wrapping_mul(37) | 0x80).collect();
+            let indices: Vec<u8> = (0..index_bytes).map(|i| (i as u8).wrapping_mul(101).wrapping_add(7)).collect();
+            let mut body = Vec::new();
+            for v in [(32 + slots + index_bytes) as u32, slots as u32, slots as u32, 8, (slots * index_bits) as u32, 0, index_bits as u32, index_bytes as u32] { body.extend_from_slice(&v.to_le_bytes()); }
+            body.extend_from_slice(&hashes); body.extend_from_slice(&indices);
+            let blen = body.len();
+            let mut stored = Vec::new();
+            stored.extend_from_slice(&0x1A54_4548u32.to_le_bytes()); stored.extend_from_slice(&1u32.to_le_bytes()); stored.extend_from_slice(&(blen as u32).to_le_bytes());
+            ArchiveBuilder::new().encrypt_data(&mut body, key);
+            stored.extend_from_slice(&body);
+            let n = stored.len() as u64;
+            let r = std::panic::catch_unwind(move || wow_mpq::HetTable::read(&mut std::io::Cursor::new(stored), 0, n, key));
+            let ok = matches!(&r, Ok(Ok(t)) if t.hash_table == hashes && t.file_indices == indices);
+            ctx.out.oracle(ok, "table-decryption-does-not-invert-builder-encryption", &format!("HET table with {slots} slots, {index_bits}-bit indices: encrypted body of {blen} bytes (length % 4 = {})", blen % 4));
+            ctx.out.stat(&format!("c04.table_wrapper.len_mod4_{}", blen % 4));
+        } }
+    }
 }
